@@ -318,7 +318,7 @@ def main(prop_id, tier, seed, only_sub=None):
         for sub in mod.SUBCHECKS:
             if only_sub and sub.name != only_sub:
                 continue
-            n = sub.examples.get(tier, 0)
+            n = int(sub.examples.get(tier, 0) * float(os.environ.get("PV_SCALE", "1")))
             if sub.strategy is not None and n > 0:
                 nsh = min(sub.shards[tier], max(1, n // 5))
                 per = max(1, n // nsh)
